@@ -1013,7 +1013,10 @@ def net_io_counters():
     for line in lines[2:]:
         colon = line.rfind(':')
         assert colon > 0, repr(line)
-        name = line[:colon].strip()
+        # the kernel pads the name with spaces only ("%6s:"); a bare strip()
+        # would also eat str blanks that are legal in interface names
+        # (0x1c-0x1f, U+0085, U+2003...)
+        name = line[:colon].strip(" ")
         fields = line[colon + 1 :].strip().split()
 
         (
